@@ -34,6 +34,8 @@ type c07Case struct {
 	// Short > 0: the target buffer is this many bytes smaller than the program; the sequence the assembler accepts
 	// ends before the first call that no longer fits (that call must be refused), and that prefix is what the CPU runs
 	Short int `json:"short,omitempty"`
+	// Listing: the emitter also keeps a listing (must not influence addresses or widths)
+	Listing bool `json:"listing,omitempty"`
 }
 
 type c07Result struct {
@@ -51,7 +53,7 @@ func c07Check(c c07Case, res *c07Result) error {
 			capacity = 0
 		}
 	}
-	p := &emPair{em: asm.NewEmitter(make([]byte, capacity), false), m: asmcat.NewModel(capacity, false, false)}
+	p := &emPair{em: asm.NewEmitter(make([]byte, capacity), c.Listing), m: asmcat.NewModel(capacity, false, c.Listing)}
 	var initFlags byte
 	var endM16, endX16, ended bool
 	emitted := false
@@ -350,6 +352,27 @@ func TestC07(t *testing.T) {
 					if c.CloneTo <= c.CloneFrom {
 						c.CloneFrom, c.CloneTo = 0, 0
 					}
+				}
+				c.Listing = rapid.Bool().Draw(t, "listing")
+				if rapid.IntRange(0, 2).Draw(t, "raw-nops") == 0 {
+					// instructions emitted as raw bytes with EmitBytes (NOPs): every byte is an instruction start
+					// (placed after the first instruction, so that the width assumptions stated before it stay before it)
+					first := len(c.Ops) + 1
+					pm := asmcat.NewModel(1<<30, false, false)
+					for i, o := range c.Ops {
+						if pm.Apply(o); len(pm.Bytes) > 0 {
+							first = i + 1
+							break
+						}
+					}
+					for k := rapid.IntRange(1, 2).Draw(t, "nop-blocks"); k > 0 && first <= len(c.Ops); k-- {
+						at := rapid.IntRange(first, len(c.Ops)).Draw(t, "nops-at")
+						n := rapid.SampledFrom([]uint32{1, 2, 15, 16, 17, 32, 33, 48}).Draw(t, "nops-len")
+						ops := append([]asmcat.Op(nil), c.Ops[:at]...)
+						ops = append(ops, asmcat.Op{Kind: "data", V: n, Nops: true})
+						c.Ops = append(ops, c.Ops[at:]...)
+					}
+					ev.Class("instructions-emitted-as-raw-bytes(EmitBytes-of-NOPs)")
 				}
 				if rapid.IntRange(0, 7).Draw(t, "short-buffer") == 0 {
 					c.Short = rapid.IntRange(1, 6).Draw(t, "short-by")
